@@ -72,6 +72,8 @@ def freeze(x):
 
 def normalise(tp, classes):
     """evaluated annotation -> same vocabulary as `denote`"""
+    if tp is None:
+        return type(None)
     if tp in classes:
         return _Tok(("model", tp.__name__))
     if isinstance(tp, type) and issubclass(tp, StringSerializable):
@@ -128,6 +130,8 @@ def check_case(inputs, cmps, job, registry, check_types):
                 return {"kind": "original-key-wrong", "observed": f"{m.name}.{name}: attached key {got_key!r} for unchanged name"}, None
             if check_types:
                 optional = isinstance(t, DOptional)
+                if fw == "base":
+                    optional = has_default = False      # the plain generator emits annotations only, by design
                 if has_default != optional:
                     return {"kind": "default-vs-optional", "observed": f"{m.name}.{name}: optional={optional} has_default={has_default}"}, None
                 if optional:
